@@ -1,6 +1,9 @@
 package main
 
-import "encoding/json"
+import (
+	"encoding/json"
+	"path/filepath"
+)
 
 func jsonUnmarshal(b []byte, v interface{}) error { return json.Unmarshal(b, v) }
 
@@ -12,4 +15,73 @@ func runThoroughExtras(spec *PropSpec, progs []*Program, cfgs []Config, r *Repor
 	for _, f := range thoroughExtras[spec.ID] {
 		f(progs, cfgs, r, root)
 	}
+}
+
+// Positive controls: zero-expected rules are run against /verif/checker/controls, a tiny module that
+// contains one instance of each forbidden construct. The rule must report a violation there.
+type Control struct {
+	Rule     string
+	Run      func(p *Program, r *Report)
+	MustFire []string // substrings of obligation keys that must be reported as violations
+}
+
+var controlRegistry = map[string][]Control{}
+
+var controlProg *Program
+var controlErr error
+var controlLoaded bool
+
+func runControls(spec *PropSpec, r *Report, verif string) {
+	ctls := controlRegistry[spec.ID]
+	if len(ctls) == 0 {
+		return
+	}
+	if !controlLoaded {
+		controlLoaded = true
+		controlProg, controlErr = Load(filepath.Join(verif, "checker", "controls"), Config{Name: "control", Env: []string{"GOARCH=amd64", "GOOS=linux"}})
+	}
+	r.cur = "control"
+	if controlErr != nil {
+		r.Undecided("CONTROL", "load", "-", "positive-control module loads", controlErr.Error())
+		return
+	}
+	for _, c := range ctls {
+		sub := NewReport(spec.ID, "control", 0)
+		sub.cur = "control"
+		func() {
+			defer func() {
+				if e := recover(); e != nil {
+					sub.Undecided(c.Rule, "panic", "-", "rule runs on the control", "panic")
+				}
+			}()
+			c.Run(controlProg, sub)
+		}()
+		for _, want := range c.MustFire {
+			fired := false
+			for _, o := range sub.Obls {
+				if o.Status == "violation" && o.Rule == c.Rule && containsStr(o.Key, want) {
+					fired = true
+				}
+			}
+			key := "control:" + want
+			if fired {
+				r.OK(c.Rule, key, "checker/controls", "positive control: the rule reports the forbidden construct "+want+" in the control package")
+			} else {
+				r.Undecided(c.Rule, key, "checker/controls", "positive control: the rule reports the forbidden construct "+want, "the rule did not fire on its control: it cannot be trusted to fire on /repo")
+			}
+		}
+	}
+}
+
+func containsStr(s, sub string) bool {
+	return len(sub) == 0 || (len(s) >= len(sub) && indexOf(s, sub) >= 0)
+}
+
+func indexOf(s, sub string) int {
+	for i := 0; i+len(sub) <= len(s); i++ {
+		if s[i:i+len(sub)] == sub {
+			return i
+		}
+	}
+	return -1
 }
